@@ -160,6 +160,39 @@ func (m *Model) Flatten() map[string]string {
 	return out
 }
 
+// FlatDiff is one difference between two flattened states, values untruncated.
+type FlatDiff struct{ Key, Want, Got string }
+
+// DiffFlatFull returns up to max differences (sorted, deterministic) with full values.
+func DiffFlatFull(want, got map[string]string, section string, max int) []FlatDiff {
+	keys := map[string]bool{}
+	for k := range want {
+		if strings.HasPrefix(k, section) {
+			keys[k] = true
+		}
+	}
+	for k := range got {
+		if strings.HasPrefix(k, section) {
+			keys[k] = true
+		}
+	}
+	ks := make([]string, 0, len(keys))
+	for k := range keys {
+		ks = append(ks, k)
+	}
+	sort.Strings(ks)
+	var out []FlatDiff
+	for _, k := range ks {
+		if w, g := want[k], got[k]; w != g {
+			out = append(out, FlatDiff{k, w, g})
+			if len(out) >= max {
+				break
+			}
+		}
+	}
+	return out
+}
+
 // DiffFlat returns up to max differences between two flattened states (sorted, deterministic).
 func DiffFlat(want, got map[string]string, section string, max int) []string {
 	keys := map[string]bool{}
